@@ -278,7 +278,7 @@ Definition rel_sp (f : family) : bool := match f with FParafac => true | _ => fa
 Definition rel_l2 (f : family) : bool := match f with FParafac => true | _ => false end.
 Definition rel_warm (f : family) : bool := match f with FHalsNnls | FFista | FActiveSet | FRandom => true | _ => false end.
 Definition rel_fb (f : family) : bool := match f with FActiveSet => true | _ => false end.
-Definition rel_alt (f : family) : bool := match f with FNNTuckerHals | FSvd | FParafac2 | FRandom | FMaskMul | FMaskMulCast => true | _ => false end.
+Definition rel_alt (f : family) : bool := match f with FNNTuckerHals | FSvd | FParafac2 | FRandom | FMaskMul | FMaskMulCast | FTrAlsSampled => true | _ => false end.
 
 Definition norm_cfg (c : cfg) : cfg :=
   let f := c_fam c in
@@ -810,3 +810,33 @@ Example all_exact2_example :
   prog_ok2 (mkenv C64 C64) (mkprog [(0, In_); (1, Into (Leaf (LConst F32)) (Var 0))] [] [("*", Var 1)]) = true /\
   all_exact2 (mkenv C64 C64) (mkprog [(0, In_); (1, Into (Leaf (LConst F32)) (Var 0))] [] [("*", Var 1)]) [0] = false.
 Proof. repeat split; vm_compute; reflexivity. Qed.
+
+(* ---- tensor_ring_als_sampled: the documented float64 leverage scores / the float64 scalar of the uniform branch meet the data only through
+   IN-PLACE updates of `rescaling`; as rebindings the same statements would widen float32 cores to float64 *)
+Definition tr_sampled_cfg (uniform : bool) := mkcfg FTrAlsSampled IRandom false false false false false false PNone false false uniform.
+Lemma tr_als_sampled_inplace uniform t m n s e : In t ctxs -> In (s, e) (p_outs (skeleton (tr_sampled_cfg uniform))) ->
+  eval (mkenv t m) (run (mkenv t m) (skeleton (tr_sampled_cfg uniform)) n) e = t.
+Proof.
+  intros Ht Hin. apply (outputs_exact_context t m (tr_sampled_cfg uniform) n s e Ht).
+  - unfold valid_cfg. simpl. repeat (try (left; reflexivity); right).
+  - exact Hin.
+  - destruct uniform; simpl in Hin; repeat (destruct Hin as [Hin|Hin]; [injection Hin as <- <-; reflexivity|]); destruct Hin.
+  - destruct uniform; simpl in Hin; repeat (destruct Hin as [Hin|Hin]; [injection Hin as <- <-; reflexivity|]); destruct Hin.
+Qed.
+Lemma tr_als_sampled_rebinding_widens : forall uniform n, 0 < n ->
+  out_of_prog (mkenv F32 F32) (tr_als_sampled_prog_gen false (tr_sampled_cfg uniform)) n "*" = Some F64.
+Proof.
+  intros uniform n Hn. destruct n as [|n]; [inversion Hn|]. clear Hn.
+  assert (H : forall k st, st vT = F32 -> (st vF = F32 \/ st vF = F64) ->
+            iter (S k) (fun st => exec (mkenv F32 F32) st (p_body (tr_als_sampled_prog_gen false (tr_sampled_cfg uniform)))) st vF = F64
+            /\ iter (S k) (fun st => exec (mkenv F32 F32) st (p_body (tr_als_sampled_prog_gen false (tr_sampled_cfg uniform)))) st vT = F32).
+  { induction k as [|k IH]; intros st HT HF.
+    - destruct uniform; destruct HF as [HF|HF]; simpl; unfold exec, upd; simpl; rewrite ?HT, ?HF; split; reflexivity.
+    - change (iter (S (S k)) ?f st) with (iter (S k) f (f st)).
+      apply IH; destruct uniform; destruct HF as [HF|HF]; unfold exec, upd; simpl; rewrite ?HT, ?HF; auto. }
+  unfold out_of_prog, out_dtypes. cbn [p_outs tr_als_sampled_prog_gen map fst snd find String.eqb Ascii.eqb Bool.eqb].
+  unfold run. cbn [eval F_]. 
+  destruct (H n (exec (mkenv F32 F32) st0 (p_init (tr_als_sampled_prog_gen false (tr_sampled_cfg uniform))))) as [HF _];
+    [reflexivity | left; reflexivity |].
+  rewrite HF. reflexivity.
+Qed.
